@@ -67,6 +67,22 @@ func runC09(rt *rapid.T, st *stats.Collector) {
 		prep = prep || k.Prep
 		cols = append(cols, inputCol{name: fmt.Sprintf("c%d", i), kind: k, col: k.New()})
 	}
+	// One history in thirty carries a block of more than a mebibyte (an incompressible String
+	// value), mostly as the tail sent together with io.EOF: size thresholds in the write path.
+	huge := rapid.IntRange(0, 29).Draw(rt, "huge-block") == 0
+	var hugeVal []byte
+	if huge {
+		k := gen.ByName["String|X|String"]
+		cols[0] = inputCol{name: "c0", kind: k, col: k.New()}
+		x := rapid.Uint64().Draw(rt, "huge-seed") | 1
+		hugeVal = make([]byte, 1<<20+rapid.IntRange(1, 300_000).Draw(rt, "huge-extra"))
+		for i := range hugeVal {
+			x ^= x << 13
+			x ^= x >> 7
+			x ^= x << 17
+			hugeVal[i] = byte(x >> 32)
+		}
+	}
 	drawRows := func(n int) [][]ref.Val {
 		out := make([][]ref.Val, ncols)
 		for i, c := range cols {
@@ -93,6 +109,20 @@ func runC09(rt *rapid.T, st *stats.Collector) {
 			rd.ret = rapid.SampledFrom([]string{"eof", "eof", "wrapped-eof", "error"}).Draw(rt, "return")
 		}
 		rounds = append(rounds, rd)
+	}
+	if huge {
+		hr := nrounds - 1
+		if rapid.IntRange(0, 2).Draw(rt, "huge-round-anywhere") == 0 {
+			hr = rapid.IntRange(0, nrounds-1).Draw(rt, "huge-round")
+		}
+		rd := &rounds[hr]
+		if rd.action != "append" && rd.action != "reset-append" {
+			rd.action = "reset-append"
+		}
+		if rd.rows == nil || len(rd.rows[0]) == 0 {
+			rd.rows = drawRows(1)
+		}
+		rd.rows[0][0] = hugeVal
 	}
 
 	snapshot := func() [][]ref.Val {
@@ -299,6 +329,9 @@ func runC09(rt *rapid.T, st *stats.Collector) {
 	st.Case(stats.Hash("c09", describe(), string(e.conn.WrittenBytes())), nt, func() any {
 		return map[string]any{"kind": "insert-history", "history": describe()}
 	})
+	if huge {
+		st.Label("block-over-1MiB")
+	}
 	if zc {
 		st.Label("zero-copy-column")
 	}
